@@ -29,6 +29,10 @@ struct Design {
     wscale: Option<f64>,
     /// the problem depends on the squares of the weights only: designs in the second half of the list use random signs
     wsign: Vec<f64>,
+    /// problem built through the parallel constructor
+    par: bool,
+    /// realisations per block of work (large designs use small blocks, i.e. fewer realisations)
+    block: u64,
 }
 
 fn designs(seed: u64, count: usize) -> Vec<Design> {
@@ -72,7 +76,19 @@ fn designs(seed: u64, count: usize) -> Vec<Design> {
             _ => Some(rng.logrange(0.2, 5.0)),
         };
         let wsign: Vec<f64> = (0..n).map(|_| if i >= 4 { rng.sign() } else { 1.0 }).collect();
-        out.push(Design { name: format!("{} N={} {}", ["F1 two decays + offset", "F2 Gaussian + decay + offset", "F3 decay + offset", "F4 sine + damped cosine of one frequency"][fam], n, ["homoscedastic unweighted", "w=1/sigma", "w=c/sigma"][mode]) + if i % 5 == 4 { " (noise 1e-9)" } else { "" }, mspec, alpha, c, sigma, wscale, wsign });
+        out.push(Design { name: format!("{} N={} {}", ["F1 two decays + offset", "F2 Gaussian + decay + offset", "F3 decay + offset", "F4 sine + damped cosine of one frequency"][fam], n, ["homoscedastic unweighted", "w=1/sigma", "w=c/sigma"][mode]) + if i % 5 == 4 { " (noise 1e-9)" } else { "" }, mspec, alpha, c, sigma, wscale, wsign, par: false, block: 500 });
+    }
+    // one large design: thousands of observations through the parallel constructor (1/50 of the
+    // realisations of the other designs)
+    {
+        let n = 2048 + 2 * rng.int(20, 60) + 1;
+        let t = rng.range(0.8, 1.6);
+        let mspec = z1(grid(&mut rng, n, 0.0, 4.0 * t, false), 1, true);
+        let c: Vec<f64> = vec![rng.range(1.0, 4.0), rng.range(1.0, 4.0) * rng.sign()];
+        let base = 1e-3 * c.iter().map(|v| v.abs()).fold(0.0, f64::max);
+        let sigma: Vec<f64> = (0..n).map(|_| base * rng.logrange(0.3, 3.0)).collect();
+        let wsign: Vec<f64> = (0..n).map(|_| rng.sign()).collect();
+        out.push(Design { name: format!("F3 decay + offset N={n} w=1/sigma, parallel problem"), mspec, alpha: vec![t], c, sigma, wscale: Some(1.0), wsign, par: true, block: 10 });
     }
     out
 }
@@ -96,7 +112,7 @@ fn realisation(d: &Design, rng: &mut Rng, t: &mut Tally) {
     let truth = phi.mul(&Mat::colvec(&d.c));
     let y = Mat::from_fn(n, 1, |i, _| truth.at(i, 0) + d.sigma[i] * rng.normal());
     let w = d.wscale.map(|s| d.sigma.iter().zip(&d.wsign).map(|(sg, sn)| sn * s / sg).collect::<Vec<f64>>());
-    let spec = ProblemSpec { model: ModelKind::Hand(d.mspec.clone()), alpha0: d.alpha.iter().map(|a| a * 1.01).collect(), y, w, eps: None, mrhs: false, par: false };
+    let spec = ProblemSpec { model: ModelKind::Hand(d.mspec.clone()), alpha0: d.alpha.iter().map(|a| a * 1.01).collect(), y, w, eps: None, mrhs: false, par: d.par };
     let Ok(prob) = build_problem::<f64>(&spec, &SpyCtl::new()) else {
         t.failed += 1;
         return;
@@ -142,12 +158,12 @@ fn realisation(d: &Design, rng: &mut Rng, t: &mut Tally) {
 }
 
 pub fn run(ctx: &Ctx) {
-    ctx.rule("designs: F1 two decays + offset, F2 Gaussian peak + decay + offset, F3 decay + offset, F4 sin(wx) + exp(-ax)cos(wx) on 40 points (basis values, derivatives and whitened Jacobian rows of every sign pattern); F1-F3 on N in {10,14,30} points, coefficients in ±[1,4] (random signs from the fifth design on); noise Gaussian with sigma_i = 1e-4 (every fifth design: 1e-9) of the largest |coefficient| (homoscedastic, unweighted) or spread over a decade (weights 1/sigma_i, or c/sigma_i with c in [0.2,5]; from the fifth design on each weight carries a random sign); per design K independent realisations (quick 30000 on 8 designs, thorough 1000000 on 12), each fitted with fit_with_statistics from a start 1% off; tallies: true curve inside the band per sample, true c_j and alpha_k inside the Student-t interval built from the reported variance (oracle's own quantile), p in {0.5, 0.683, 0.9, 0.99}; mean reduced chi2 (1 for w=1/sigma, c^2 for w=c/sigma). Verdict per tally: |frequency - p| <= 6·sqrt(p(1-p)/K) + 0.004. evaluations = fits; distinct = (design, realisation block)");
+    ctx.rule("designs: F1 two decays + offset, F2 Gaussian peak + decay + offset, F3 decay + offset, F4 sin(wx) + exp(-ax)cos(wx) on 40 points (basis values, derivatives and whitened Jacobian rows of every sign pattern); F1-F3 on N in {10,14,30} points, coefficients in ±[1,4] (random signs from the fifth design on); noise Gaussian with sigma_i = 1e-4 (every fifth design: 1e-9) of the largest |coefficient| (homoscedastic, unweighted) or spread over a decade (weights 1/sigma_i, or c/sigma_i with c in [0.2,5]; from the fifth design on each weight carries a random sign); per design K independent realisations (quick 30000 on 8 designs, thorough 1000000 on 12; plus one large design with 2089..2169 observations through the parallel constructor and K/50 realisations), each fitted with fit_with_statistics from a start 1% off; tallies: true curve inside the band per sample, true c_j and alpha_k inside the Student-t interval built from the reported variance (oracle's own quantile), p in {0.5, 0.683, 0.9, 0.99}; mean reduced chi2 (1 for w=1/sigma, c^2 for w=c/sigma). Verdict per tally: |frequency - p| <= 6·sqrt(p(1-p)/K) + 0.004. evaluations = fits; distinct = (design, realisation block)");
     ctx.assume("6-sigma binomial bounds over <= 1e3 tests per run give a false-alarm rate < 1e-5 per run; the 0.004 slack absorbs the O(noise) non-linearity bias and the library's quantile approximation; a pass says 'not distinguishable from calibrated at resolution ~0.01'");
     let t = ctx.tier;
-    let nd = t.pick(8, 12);
     let k_per = t.pick(30000u64, 1000000u64);
-    let ds = designs(ctx.seed, nd);
+    let ds = designs(ctx.seed, t.pick(8, 12));
+    let nd = ds.len();
     let block = 500u64;
     let blocks = k_per / block;
     let tallies: Vec<Mutex<Tally>> = (0..nd).map(|_| Mutex::new(Tally::default())).collect();
@@ -158,10 +174,10 @@ pub fn run(ctx: &Ctx) {
         let di = (case / blocks) as usize;
         let d = &ds[di];
         let mut local = Tally::default();
-        for _ in 0..block {
+        for _ in 0..d.block {
             realisation(d, rng, &mut local);
         }
-        out.evals += block;
+        out.evals += d.block;
         out.nontrivial.push(crate::rng::hash_u64s([di as u64, case]));
         let mut g = tallies[di].lock().unwrap();
         if g.band_in.is_empty() {
@@ -194,7 +210,7 @@ pub fn run(ctx: &Ctx) {
     for (di, d) in ds.iter().enumerate() {
         let g = tallies[di].lock().unwrap().clone();
         let k = g.k as f64;
-        if g.k < 1000 || (g.failed as f64) > 0.01 * (g.k + g.failed) as f64 {
+        if g.k < 300 || (g.failed as f64) > 0.01 * (g.k + g.failed) as f64 {
             out.inconcl("too few successful realisations of a design");
             summary.push(json!({"design": d.name, "realisations": g.k, "failed": g.failed, "verdict": "inconclusive"}));
             continue;
